@@ -332,6 +332,20 @@ class DictWriter:
                 "src": self.write_value_ref(instruction.src),
                 "amount": instruction.amount,
             }
+        elif isinstance(instruction, ir.InlineAsm):
+            json_instruction = {
+                "kind": "inlineasm",
+                "template": instruction.template,
+                "outputs": [
+                    self.write_value_ref(value)
+                    for value in instruction.output_values
+                ],
+                "inputs": [
+                    self.write_value_ref(value)
+                    for value in instruction.input_values
+                ],
+                "clobbers": [str(reg) for reg in instruction.clobbers],
+            }
         elif isinstance(instruction, ir.Phi):
             json_phi_inputs = []
             for phi_input_block, phi_input_value in instruction.inputs.items():
@@ -615,6 +629,17 @@ class DictReader:
             src = self.get_value_ref(json_instruction["src"])
             amount = json_instruction["amount"]
             instruction = ir.CopyBlob(dst, src, amount)
+        elif itype == "inlineasm":
+            template = json_instruction["template"]
+            # Note that the clobbers are names of registers
+            clobbers = list(json_instruction["clobbers"])
+            instruction = ir.InlineAsm(template, clobbers)
+            for json_input in json_instruction["inputs"]:
+                instruction.add_input_variable(self.get_value_ref(json_input))
+            for json_output in json_instruction["outputs"]:
+                instruction.add_output_variable(
+                    self.get_value_ref(json_output)
+                )
         elif itype == "exit":
             instruction = ir.Exit()
         elif itype == "return":
